@@ -19,12 +19,15 @@ LEVEL_TEXT = ("Machine-checked proofs (Coq; reals axioms only) about a branch-by
               "SingleExponentialCurrent, DoubleExponentialCurrent, _synparam_at and the tensor path of RecordTensor.select: "
               "closed forms of the current for every spike train and injected current, spike record = input, "
               "value recorded k steps ago for every k < record size, on-grid / off-grid / beyond-range reads, "
-              "in-place = out-of-place, clear = resting state.  The model is run (vm_compute, binary64) against the real "
+              "in-place = out-of-place, clear = resting state; run-time configuration changes (dt / delay setters = constructor "
+              "state of the new configuration, in-place flag, invariant over mixed runs).  The model is run (vm_compute, binary64) against the real "
               "classes on seeded operation sequences; a Python convolution / list-of-past-values oracle states the property "
               "independently of the model.")
 LEVEL_NOTE = ("Trusted: Coq kernel; translator for interp_previous/nearest/expdecay, recordsz_expr, _unwind_ptr; the hand-written "
               "model C04/Synapse.v (incl. a hand transcription of the tensor path of RecordTensor.select) validated by "
-              "correspondence only; torch broadcasting/gather/where modelled by their meaning. Floating-point rounding is not "
+              "correspondence only; torch broadcasting/gather/where modelled by their meaning. Batch-size changes and reassignment "
+              "of spike_charge / time constants mid-run, and the three construction paths (direct, partialconstructor, connection "
+              "constructor), are covered by correspondence + oracle only. Floating-point rounding is not "
               "proved (theorems are exact-arithmetic statements). Defect found by this check and since repaired in /repo (10db8c5): "
               "with maximum delay 0 a selector carrying the trailing D axis made _synparam_at raise / mis-broadcast; the "
               "witnesses stay in corpus/C04.")
@@ -44,7 +47,7 @@ EXPLANATION = ("For every sequence of operations from the constructor the three 
                "otherwise (exact continuous-time response for the exponential classes), the overbound value / the value at the limit "
                "outside [-tol, delay+tol]; in-place and out-of-place runs are equal.")
 HEADER = ("From Coq Require Import List ZArith Bool PrimFloat.\n"
-          "From Inferno Require Import Base.Num Base.NumF C01.Ring C04.Synapse C04.SynapseExec.\n"
+          "From Inferno Require Import Base.Num Base.NumF C01.Ring C04.Synapse C04.Config C04.SynapseExec.\n"
           "Import ListNotations.\n")
 IMPL = os.path.join(F.VERIF, "tools", "impl", "c04_impl.py")
 CLSN = ["DeltaCurrent", "DeltaPlusCurrent", "SingleExponentialCurrent", "DoubleExponentialCurrent"]
@@ -66,8 +69,9 @@ def is_dyadic(x, bits=12):
 
 
 # ------------------------------------------------------------------ generator
-def gen_selector_vals(rng, case, count, dyadic):
-    dt, delay, tol = case["dt"], case["delay"], case["tol"]
+def gen_selector_vals(rng, cur, count, dyadic):
+    """cur: the configuration in force (dt, delay, tol)"""
+    dt, delay, tol = cur["dt"], cur["delay"], cur["tol"]
     nmax = int(math.ceil(delay / dt)) + 1
     out = []
     for _ in range(count):
@@ -91,12 +95,50 @@ def gen_selector_vals(rng, case, count, dyadic):
     return out
 
 
+DELAY_MULS = [0, 0, 0, 1, 2, 3, 2.5, 1.5, 4, 0.5]
+
+
+def gen_setter(rng, case, cur, malformed):
+    """one configuration change at a random point of the run; updates cur (the configuration in force)"""
+    cls, dyadic = case["cls"], case["dyadic"]
+    k = rng.choice(["set_dt", "set_dt", "set_delay", "set_delay", "set_inplace", "set_batch", "set_Q"]
+                   + (["set_tau"] if cls in (2, 3) else []) + (["set_tr"] if cls == 3 else []))
+    if k == "set_dt":
+        if malformed and rng.random() < 0.3:
+            return ["set_dt", rng.choice([0.0, -1.0])]
+        cands = [d for d in ([1.0, 0.5, 0.25, 2.0] if dyadic else [1.3, 0.1, 0.7, 0.9]) if cur["tol"] <= d / 4]
+        v = rng.choice(cands or [cur["dt"]])
+        cur["dt"] = v
+        return ["set_dt", v]
+    if k == "set_delay":
+        if malformed and rng.random() < 0.3:
+            return ["set_delay", -1.0]
+        v = float(rng.choice(DELAY_MULS) * cur["dt"])
+        cur["delay"] = v
+        return ["set_delay", v]
+    if k == "set_inplace":
+        return ["set_inplace", rng.random() < 0.5]
+    if k == "set_batch":
+        v = rng.choice([1, 2, 3])
+        cur["batch"] = v
+        return ["set_batch", v]
+    if k == "set_Q":
+        return ["set_Q", rng.choice([1.0, 2.0, -1.5, 0.7, 3.0])]
+    if k == "set_tau":
+        v = rng.choice([5.0, 2.3, 8.0, 3.1]) if cls == 2 else cur["tr"] + rng.choice([0.5, 2.0, 6.0])
+        cur["tau"] = v
+        return ["set_tau", v]
+    v = rng.choice([x for x in [0.5, 1.7, 0.3, 1.1] if x < cur["tau"] - 0.25] or [cur["tr"]])
+    cur["tr"] = v
+    return ["set_tr", v]
+
+
 def gen_case(rng: random.Random, idx: int):
     malformed = idx % 6 == 5
     cls = rng.randrange(4)
     dyadic = rng.random() < 0.7
     dt = rng.choice([1.0, 0.5, 0.25]) if dyadic else rng.choice([1.3, 0.1, 0.7])
-    dmul = rng.choice([0, 0, 0, 1, 2, 3, 2.5, 1.5, 4, 0.5])
+    dmul = rng.choice(DELAY_MULS)
     delay = float(dmul * dt)
     shape = rng.choice([[1], [2], [3], [2, 2], [2]])
     batch = rng.choice([1, 1, 2, 3])
@@ -112,17 +154,26 @@ def gen_case(rng: random.Random, idx: int):
         "cur_ob": rng.choice([0.0, 0.0, None, 7.5, -1.0]), "spk_ob": rng.choice([False, False, None, True]),
         "inplace": rng.random() < 0.5, "float_in": rng.random() < 0.25, "nonbinary": False, "dyadic": dyadic,
         "malformed": malformed,
+        # how the synapse is built: directly, through Class.partialconstructor(...), or by a connection's constructor
+        "build": rng.choice(["direct", "partial", "partial", "connection"]),
     }
     if case["float_in"] and rng.random() < 0.3:
         case["nonbinary"] = True
-    full = [batch] + shape
-    n = nel(full)
+    if case["build"] == "connection":      # LinearDense gives its synapse the flattened input shape
+        shape = [nel(shape)]
+        case["shape"] = shape
+    setters = rng.random() < 0.45          # configuration changes at random points of the run
+    cur = {"dt": dt, "delay": delay, "tol": float(tol), "batch": batch, "tau": tau, "tr": tr}
     ops = []
     nops = rng.randint(4, 22)
     p_spike = rng.choice([0.2, 0.5, 0.8])
     for _ in range(nops):
+        full = [cur["batch"]] + shape
+        n = nel(full)
         r = rng.random()
-        if r < 0.50:
+        if setters and rng.random() < 0.14:
+            ops.append(gen_setter(rng, case, cur, malformed))
+        elif r < 0.50:
             if case["nonbinary"]:
                 xs = [rng.choice([0.0, 0.0, 1.0, 0.5, 2.0, -1.0]) for _ in range(n)]
             else:
@@ -147,7 +198,7 @@ def gen_case(rng: random.Random, idx: int):
                 ssh = list(full)
             else:
                 ssh = full + [rng.choice([1, 2, 3])]
-            ops.append([kind, ssh, gen_selector_vals(rng, case, nel(ssh), dyadic)])
+            ops.append([kind, ssh, gen_selector_vals(rng, cur, nel(ssh), dyadic)])
         else:
             ops.append(["clear"])
     case["ops"] = ops
@@ -176,7 +227,8 @@ def exhaustive_cases(maxlen=4):
                     ops.append(["spk_at", [1, 1, len(sels)], list(sels)])
                     out.append({"cls": cls, "shape": [1], "batch": 1, "dt": 1.0, "delay": 2.0, "Q": 2.0, "tau": 5.0, "tr": 0.5,
                                 "mode": mode, "tol": 0.25, "cur_ob": 7.5, "spk_ob": True, "inplace": bool(L % 2),
-                                "float_in": False, "nonbinary": False, "dyadic": True, "malformed": False, "ops": ops})
+                                "float_in": False, "nonbinary": False, "dyadic": True, "malformed": False,
+                                "build": ["direct", "partial", "connection"][L % 3], "ops": ops})
     return out
 
 
@@ -192,6 +244,26 @@ def q_fs(xs):
 
 
 def q_op(op):
+    k = op[0]
+    f = F.coq_float
+    if k == "set_dt":
+        return f"CSetDt FN {f(op[1])}"
+    if k == "set_delay":
+        return f"CSetDelay FN {f(op[1])}"
+    if k == "set_inplace":
+        return f"CSetInplace FN {F.coq_bool(op[1])}"
+    if k == "set_batch":
+        return f"CSetBatch FN {int(op[1])}%nat"
+    if k == "set_Q":
+        return f"CSetQ FN {f(op[1])}"
+    if k == "set_tau":
+        return f"CSetTau FN {f(op[1])}"
+    if k == "set_tr":
+        return f"CSetTr FN {f(op[1])}"
+    return f"CSyn FN ({q_sop(op)})"
+
+
+def q_sop(op):
     k = op[0]
     if k == "step":
         return f"OStep FN {q_shape(op[1])} {q_fs(op[2])} {F.coq_list([q_fs(i) for i in op[3]])}"
@@ -213,7 +285,7 @@ def q_case(case):
     cfg = (f"(mkCfg FN (kind_of {case['cls']}%Z) {q_shape(full)} {f(case['dt'])} {f(case['delay'])} {f(case['Q'])} "
            f"{f(case['tau'])} {f(case['tr'])} (mode_of {case['mode']}%Z) {f(case['tol'])} {cob} {sob} "
            f"{F.coq_bool(case['inplace'])})")
-    return f"run_case {cfg} {F.coq_list([q_op(o) for o in case['ops']])}"
+    return f"run_ccase {cfg} {F.coq_list([q_op(o) for o in case['ops']])}"
 
 
 # ------------------------------------------------------------------ model vs implementation
@@ -227,7 +299,7 @@ def dec_out_model(o):
 
 
 def dec_out_impl(o):
-    if o[0] == 0:
+    if o[0] in (0, 4):          # 4: a setter, carries the configuration the synapse reports afterwards (judged by the oracle)
         return ("unit",)
     if o[0] == 1:
         return ("f", list(o[1]), [F.dec_float(x) for x in o[2]])
@@ -291,14 +363,62 @@ def compare(case, mtree, itrace):
 
 # ------------------------------------------------------------------ direct oracle (the property statement)
 class Oracle:
-    """Keeps only what the property talks about: the list of inputs since the last clear.  Everything
-    expected is computed from that list by explicit sums (no recurrence, no ring, no pointer)."""
+    """Keeps only what the property talks about: the configuration in force and the list of inputs since the last
+    clear (each with the charge / time constants in force when it arrived).  Everything expected is computed from
+    that list by explicit sums (no recurrence, no ring, no pointer).
+
+    Semantics of configuration changes (as documented / coded, checked here on the implementation):
+      dt / delay setters clear the synapse (InfernoSynapse.dt / .delay call self.clear()): all history is resting
+        afterwards and every later value uses the new step time / maximum delay;
+      inplace is only a write mode; batchsz keeps the last samples / prepends resting samples (ShapedTensor.reconstrain);
+      spike_charge / time constants are plain attributes read at every step: a spike carries the charge in force
+        when it arrives and decays with the constant in force at each later step.  The delta synapse derives its
+        current from the spike record with the charge in force when READ, and the single exponential's current_at
+        interpolates with the time constant captured at construction: where these differ from the arrival-time
+        reading the oracle has no opinion (returns None)."""
 
     def __init__(self, case):
-        self.c = case
-        self.full = [case["batch"]] + case["shape"]
+        self.c = dict(case)          # configuration in force (dt, delay, Q, tau, tr, batch, inplace are updated)
+        self.tau0 = case["tau"]      # captured by SingleExponentialCurrent's interp_kwargs
+        self.shape = list(case["shape"])
+        self.full = [case["batch"]] + self.shape
         self.n = nel(self.full)
-        self.steps = []          # per step: (xs, injected sum per element)
+        self.steps = []          # per step: (xs, injected sum per element, Q, tau, tr) in force at arrival
+
+    def expected_report(self):
+        c = self.c
+        k = c["cls"]
+        return [c["dt"], c["delay"], bool(c["inplace"]), c["batch"], self.shape, c["Q"],
+                c["tau"] if k in (2, 3) else None, c["tr"] if k == 3 else None,
+                max(int(math.ceil(c["delay"] / c["dt"])) + 1, 1)]
+
+    def setter(self, op):
+        k, v = op[0], op[1]
+        c = self.c
+        if k == "set_dt":
+            c["dt"] = v
+            self.steps = []
+        elif k == "set_delay":
+            c["delay"] = v
+            self.steps = []
+        elif k == "set_inplace":
+            c["inplace"] = bool(v)
+        elif k == "set_Q":
+            c["Q"] = v
+        elif k == "set_tau":
+            c["tau"] = v
+        elif k == "set_tr":
+            c["tr"] = v
+        elif k == "set_batch":
+            per = nel(self.shape)
+            old = c["batch"]
+
+            def rb(xs):
+                return xs[(old - v) * per:] if v <= old else [0.0] * ((v - old) * per) + xs
+            self.steps = [(rb(st[0]), rb(st[1])) + tuple(st[2:]) for st in self.steps]
+            c["batch"] = v
+            self.full = [v] + self.shape
+            self.n = nel(self.full)
 
     # value of the response sum k steps ago, element e  (k >= 0; resting value before the first step)
     def spike_ago(self, k, e):
@@ -308,24 +428,28 @@ class Oracle:
         return 1 if self.steps[m - 1][0][e] != 0 else 0
 
     def comp_ago(self, k, e, which):
-        """which: 'cur' (the synapse's current), 'pos', 'neg' (double exponential components)"""
+        """which: 'cur' (the synapse's current), 'pos', 'neg' (double exponential components); None = no opinion"""
         c = self.c
         m = len(self.steps) - k
         if m <= 0:
             return 0.0
-        Q, dt = c["Q"], c["dt"]
+        dt = c["dt"]
         cls = c["cls"]
+        st = self.steps
         if cls == 0:
-            return (Q / dt) * (1.0 if self.steps[m - 1][0][e] != 0 else 0.0)
+            spike = st[m - 1][0][e] != 0
+            if spike and st[m - 1][2] != c["Q"]:
+                return None       # derived from the spike record with the charge in force when read
+            return (c["Q"] / dt) * (1.0 if spike else 0.0)
         if cls == 1:
-            return (Q / dt) * self.steps[m - 1][0][e] + self.steps[m - 1][1][e]
+            return (st[m - 1][2] / dt) * st[m - 1][0][e] + st[m - 1][1][e]
+
+        def decay(j, idx):         # product of the per-step decay factors applied to the input of step j up to step m-1
+            return math.exp(-math.fsum(dt / st[i][idx] for i in range(j + 1, m)))
         if cls == 2:
-            tau = c["tau"]
-            return math.fsum((Q / tau) * self.steps[j][0][e] * math.exp(-((m - 1 - j) * dt) / tau) for j in range(m))
-        td, tr = c["tau"], c["tr"]
-        kq = Q / (td - tr)
-        pos = math.fsum(kq * self.steps[j][0][e] * math.exp(-((m - 1 - j) * dt) / td) for j in range(m))
-        neg = math.fsum(kq * self.steps[j][0][e] * math.exp(-((m - 1 - j) * dt) / tr) for j in range(m))
+            return math.fsum((st[j][2] / st[j][3]) * st[j][0][e] * decay(j, 3) for j in range(m))
+        pos = math.fsum(st[j][2] / (st[j][3] - st[j][4]) * st[j][0][e] * decay(j, 3) for j in range(m))
+        neg = math.fsum(st[j][2] / (st[j][3] - st[j][4]) * st[j][0][e] * decay(j, 4) for j in range(m))
         return {"cur": pos - neg, "pos": pos, "neg": neg}[which]
 
     def read(self, what, t, e):
@@ -339,6 +463,9 @@ class Oracle:
 
         def near(a, b):
             return (not exact) and abs(a - b) < eps
+
+        def v(x):
+            return None if x is None else ("v", x)
         if near(tf, -tol) or near(tf, delay + tol):
             return None
         beyond = tf < -tol or tf > delay + tol
@@ -351,7 +478,7 @@ class Oracle:
         if near(abs(k * dt - tb), tol):
             return None
         if abs(k * dt - tb) <= tol:
-            return ("v", self.value_ago(what, k, e))
+            return v(self.value_ago(what, k, e))
         older, newer = math.ceil(q), math.floor(q)
         if older == newer:
             return None  # tol < 0 only
@@ -360,12 +487,14 @@ class Oracle:
         decays = (what in ("pos", "neg")) or (what == "cur" and cls in (2, 3))
         if not decays:
             if c["mode"] == 0:
-                return ("v", self.value_ago(what, older, e))
+                return v(self.value_ago(what, older, e))
             if near(since / dt, Fraction(1, 2)):
                 return None
-            return ("v", self.value_ago(what, newer if since / dt > Fraction(1, 2) else older, e))
+            return v(self.value_ago(what, newer if since / dt > Fraction(1, 2) else older, e))
         s = float(since)
         if what == "cur" and cls == 2:
+            if c["tau"] != self.tau0:
+                return None       # interpolation constant captured at construction
             return ("v", self.comp_ago(older, e, "cur") * math.exp(-s / c["tau"]))
         if what == "pos":
             return ("v", self.comp_ago(older, e, "pos") * math.exp(-s / c["tau"]))
@@ -380,9 +509,16 @@ class Oracle:
         return self.comp_ago(k, e, what)
 
 
-def well_formed_query(case, op):
-    full = [case["batch"]] + case["shape"]
-    return list(op[1]) == full or list(op[1][:-1]) == full
+def report_ok(got, exp):
+    if len(got) != len(exp):
+        return False
+    for a, b in zip(got, exp):
+        if isinstance(b, float) and a is not None:
+            if not (isinstance(a, (int, float)) and float(a) == b):
+                return False
+        elif a != b:
+            return False
+    return True
 
 
 def oracle_case(case, res):
@@ -396,15 +532,32 @@ def oracle_case(case, res):
         fails.append({"step": None if j is None else j - 1, "detail": {"inplace_vs_outofplace_differ_at": j},
                       "signature": {"kind": "inplace"}})
     o = Oracle(case)
-    full = o.full
-    n = o.n
-    nrec = own[0][0]
+    how = case.get("build", "direct")
+    # the synapse, however it was built, reports the configuration it was given
+    if len(own[0]) > 1 and not report_ok(own[0][1], o.expected_report()):
+        fails.append({"step": -1, "detail": {"built": how, "reported": own[0][1], "expected": o.expected_report()},
+                      "signature": {"kind": "constructor_report", "build": how}})
     for i, (op, (out, state)) in enumerate(zip(case["ops"], own[1:])):
         k = op[0]
+        full = o.full
+        n = o.n
+        nrec = state[0][0]
+        if k.startswith("set_"):
+            invalid = (k == "set_dt" and op[1] <= 0) or (k == "set_delay" and op[1] < 0)
+            if invalid:
+                continue
+            if out[0] != 0:
+                fails.append({"step": i, "op": op, "detail": {"raised": out[1:]}, "signature": {"kind": "raised", "op": k}})
+                continue
+            o.setter(op)
+            if out[1][0] == 4 and not report_ok(out[1][1], o.expected_report()):
+                fails.append({"step": i, "op": op, "detail": {"reported": out[1][1], "expected": o.expected_report()},
+                              "signature": {"kind": "setter_report", "op": k}})
+            continue
         bad_input = k == "step" and list(op[1]) != full
         if bad_input:
             continue
-        if k in ("cur_at", "spk_at", "pos_at", "neg_at") and not well_formed_query(case, op):
+        if k in ("cur_at", "spk_at", "pos_at", "neg_at") and not (list(op[1]) == full or list(op[1][:-1]) == full):
             continue
         undelayed_D = k in ("cur_at", "spk_at", "pos_at", "neg_at") and nrec == 1 and len(op[1]) == len(full) + 1
         sig_extra = dict(FINDING_SIG) if undelayed_D else None
@@ -418,12 +571,12 @@ def oracle_case(case, res):
             continue
         if k == "step":
             inj = [math.fsum(i[e] for i in op[3]) for e in range(n)] if op[3] else [0.0] * n
-            o.steps.append((list(op[2]), inj))
+            o.steps.append((list(op[2]), inj, o.c["Q"], o.c["tau"], o.c["tr"]))
         if k in ("step", "cur"):
             exp = [o.comp_ago(0, e, "cur") for e in range(n)]
-            if val[0] != "f" or val[1] != full or not all(F.close(a, b) for a, b in zip(val[2], exp)):
+            if val[0] != "f" or val[1] != full or not all(b is None or F.close(a, b) for a, b in zip(val[2], exp)):
                 fails.append({"step": i, "op": op if k == "cur" else ["step", "..."],
-                              "detail": {"expected_current": exp, "got": val},
+                              "detail": {"expected_current": exp, "got": val, "built": how},
                               "signature": {"kind": "closed_form", "cls": CLSN[case["cls"]]}})
             if k == "step":
                 # the stored spike record equals the input spikes (newest first behind the pointer)
@@ -461,10 +614,11 @@ def oracle_case(case, res):
                 got = val[2][e * d + j]
                 ok = (got == exp[1]) if what == "spk" else F.close(got, exp[1])
                 if not ok:
-                    tf, tol, delay = Fraction(t), Fraction(case["tol"]), Fraction(case["delay"])
+                    tf, tol, delay = Fraction(t), Fraction(o.c["tol"]), Fraction(o.c["delay"])
                     kind = "overbound" if (tf < -tol or tf > delay + tol) else "read_at_delay"
                     fails.append({"step": i, "op": op,
-                                  "detail": {"element": e, "selector_index": j, "time": t, "expected": exp[1], "got": got},
+                                  "detail": {"element": e, "selector_index": j, "time": t, "expected": exp[1], "got": got,
+                                             "built": how, "dt": o.c["dt"], "delay": o.c["delay"]},
                                   "signature": {"kind": kind, "op": k}})
                     break
             else:
@@ -523,16 +677,21 @@ def run(ctx):
         "evaluations": len(cases),
         "distinct_nontrivial": len({repr(c) for c in cases if is_nontrivial(c)}),
         "rule": "seeded random operation sequences (4-22 ops: forward steps with random spike trains / injected currents, "
+                "configuration changes at random points in ~45% of the cases (dt, delay, inplace, batchsz setters, spike_charge / "
+                "time constant assignment; dt through Connection.dt when built by a connection), "
                 "current, spike, current_at / spike_at (/ pos_current_at, neg_current_at) with per-element selectors on the "
                 "grid, off the grid, at and around +-tolerance, at / beyond the maximum delay, negative; clear) over the 4 "
                 "classes x dt in {1,.5,.25,1.3,.1,.7} x max delay in {0,.5,1,1.5,2,2.5,3,4} dt x tol x overbound value/None x "
-                "interpolation mode x batch 1-3 x 5 shapes x inplace; each case is run with both inplace settings; every 6th "
+                "interpolation mode x batch 1-3 x 5 shapes x inplace x built directly / through partialconstructor / by a LinearDense "
+                "constructor (every keyword non-default somewhere); each case is run with both inplace settings; every 6th "
                 "case from a malformed stream (wrong input shape, wrong selector rank); non-trivial = >=2 steps and >=2 op "
                 "kinds; distinct by full case text"
                 + ("; plus every spike train of length <= 4 x class x interpolation mode read back on / off the grid" if ctx["tier"] == "thorough" else ""),
         "op_distribution": dict(ops), "error_distribution": dict(errs),
         "class_distribution": dict(Counter(CLSN[c["cls"]] for c in cases)),
         "undelayed_cases": sum(1 for c in cases if c["delay"] == 0),
+        "build_distribution": dict(Counter(c.get("build", "direct") for c in cases)),
+        "cases_with_configuration_changes": sum(1 for c in cases if any(o[0].startswith("set_") for o in c["ops"])),
         "selector_values_queried": nq,
         "samples": cases[len(corpus):len(corpus) + 2],
         "mismatches": mismatches, "oracle_failures": oracle_fail,
